@@ -427,6 +427,10 @@ pub fn new_uid() -> Uid {
     let (one, two) = uid.split_at_mut(time.len());
 
     one.copy_from_slice(time);
+    #[cfg(feature = "verif")]
+    if crate::verif::uid_fill(two) {
+        return uid;
+    }
     OsRng.fill_bytes(two);
 
     uid
